@@ -4,6 +4,7 @@ import WsVerif.Gen.Lits
 import Mathlib.Tactic.Linarith
 import Mathlib.Algebra.Order.Field.Basic
 import Mathlib.Algebra.Order.Field.Rat
+import WsVerif.Gen.NpKernels
 /-!
 # C19 — partition tracking assigns consistent wave-system identifiers over time
 
@@ -375,5 +376,43 @@ example : ∃ rowPrev rowCur, (trackData exS0 [(exThr, exS1)]).1[0]? = some rowP
 /-- hypothesis of `sites_unaffected_by_other_sites` -/
 example : ([(exS0, [(exThr, exS1)]), (exS1, [])] : List (Step × List (Thr × Step)))[0]? =
     ([(exS1, []), (exS0, [(exThr, exS1)])] : List (Step × List (Thr × Step)))[1]? := rfl
+
+/-! ## T-tier: regenerated kernels
+
+`tracking.dfp_swell` and the arithmetic of the thresholded distance matrix of `match_consecutive_partitions`
+(`ddpm` wrap, `dfp`, the three threshold vectors, the `np.where` condition and value, the sentinel that the
+candidate filter tests) are regenerated entry by entry into `Gen/NpKernels.lean` (`Gen.matchDist`) and identified
+with `distEntry` for all finite operands. -/
+
+theorem gen_dfp_swell_eq (pi g dt distance : ℚ) :
+    Gen.dfpSwell pi g dt distance = Track.dfpSwell pi g dt distance ∧
+    Gen.dfpSwell_distance_default = Track.swellDistanceDefault := ⟨rfl, by decide +kernel⟩
+
+/-- `partition_distance[c, p]` of `match_consecutive_partitions`, regenerated entry by entry, is `distEntry` on
+    finite operands -/
+theorem gen_dist_eq (thr : Thr) (lo : ℚ) (hlo : thr.dfpSea = some lo) (p : Nat) (fc dc fp dp : ℚ) :
+    Gen.matchDist lo thr.dfpSwell thr.ddpmSea thr.ddpmSwell p fc dc fp dp =
+      distEntry thr p (some fc) (some dc) (some fp) (some dp) := by
+  unfold Gen.matchDist distEntry
+  by_cases hp : p = 0
+  · subst hp
+    simp only [dfpMin, hlo, if_true, within, distVal, ddpmMax, dfpMax, ddpmOf, halfTurn, fullTurn, gt_iff_lt,
+      Bool.and_eq_true, decide_eq_true_eq]
+  · simp only [dfpMin, hp, if_false, within, distVal, ddpmMax, dfpMax, ddpmOf, halfTurn, fullTurn, gt_iff_lt,
+      Bool.and_eq_true, decide_eq_true_eq]
+
+theorem gen_dist_sentinel : Gen.matchDist_sentinel = farSentinel := by decide +kernel
+
+/-- swell predecessors (`p ≠ 0`) do not read the sea threshold at all (it may be NaN) -/
+theorem gen_dist_swell_eq (thr : Thr) (lo : ℚ) (p : Nat) (hp : p ≠ 0) (fc dc fp dp : ℚ) :
+    Gen.matchDist lo thr.dfpSwell thr.ddpmSea thr.ddpmSwell p fc dc fp dp =
+      distEntry thr p (some fc) (some dc) (some fp) (some dp) := by
+  unfold Gen.matchDist distEntry
+  simp only [dfpMin, hp, if_false, within, distVal, ddpmMax, dfpMax, ddpmOf, halfTurn, fullTurn, gt_iff_lt,
+    Bool.and_eq_true, decide_eq_true_eq]
+
+/-- hypotheses of `gen_dist_eq` / `gen_dist_swell_eq` are satisfiable; the generated kernel on the 355° → 5° case -/
+example : exThr.dfpSea = some (-1 / 100) ∧ (1 : Nat) ≠ 0 ∧
+    (Gen.matchDist (-1 / 100) (1 / 200) 30 20 0 (1 / 10) 5 (13 / 125) 355).isSome = true := by decide +kernel
 
 end WS.C19
